@@ -183,11 +183,28 @@ def _optional_rules(ctx, prog, c):
                         out.append((bid, i, e, rhs if rhs is not None else n))
         return out
 
-    def fresh(rhs, pname):
-        """make_unique<T>(*other) / make_unique<T>(other.value...) or an empty temp/reset"""
+    def fresh(rhs, pname, depth=0):
+        """make_unique<T>(*other) / make_unique<T>(other.value...) or an empty temp/reset; a call to a helper of the
+        same class counts when every one of its returns is fresh w.r.t. its own parameter (effects modulo summaries)"""
         r = ir.unwrap(rhs)
         if is_empty_temp(r):
             return "empty"
+        if isinstance(r, dict) and r.get("k") == "call" and depth < 2 and not (short(r.get("name") or "").startswith("make_")):
+            nm = short(r.get("name") or "")
+            args = r.get("args", [])
+            helpers = [h for h in prog.methods_of(CN) if h.has_cfg and h.name == nm and len(h.params) == len(args) == 1]
+            if helpers and fmt(ir.unwrap(args[0])) == pname:
+                verdicts = []
+                for h in helpers:
+                    hp = h.params[0]["name"]
+                    for _, _, e in h.roots():
+                        x = e["expr"]
+                        if x.get("k") == "return" and x.get("e") is not None:
+                            verdicts.append(fresh(x["e"], hp, depth + 1))
+                if verdicts and all(v in ("fresh", "empty") for v in verdicts) and "fresh" in verdicts:
+                    return "fresh"
+                if verdicts:
+                    return "fresh?" if any(v == "fresh?" for v in verdicts) else None
         if isinstance(r, dict) and r.get("k") == "call":
             nm = short(r.get("name") or "")
             if nm in ("reset", "clear") and not r.get("args"):
@@ -201,6 +218,10 @@ def _optional_rules(ctx, prog, c):
                     if pname and (s == "(*%s)" % pname or s == "(*%s.%s)" % (pname, short(dq))):
                         return "fresh"
                 return "fresh?"
+        if isinstance(r, dict) and r.get("k") == "cond":
+            a, b = fresh(r["t"], pname, depth), fresh(r["f"], pname, depth)
+            if a in ("fresh", "empty") and b in ("fresh", "empty"):
+                return "fresh" if "fresh" in (a, b) else "empty"
         return None
 
     for f in copy_ctor + copy_asg:
